@@ -337,7 +337,8 @@ def run(mod, tier, replay=None, procs=None):
                     try:
                         confirm = mod.evaluate(r["cfg"]).pack()
                     except Exception:
-                        confirm = {"violations": [{"name": "harness", "got": traceback.format_exc()[-500:]}]}
+                        # the configuration raised again: that reproduces an "exception while evaluating" report
+                        confirm = {"violations": [{"name": "exception while evaluating a configuration"}]}
                     same = canon([(v["name"], v.get("got")) for v in confirm["violations"]]) == canon(
                         [(v["name"], v.get("got")) for v in r["violations"]])
                 else:
